@@ -84,6 +84,7 @@ struct C02Delivery : Monitor {
 	}
 	void on_send(const Dgram &d, Sock *s) override
 	{
+		if (s && !w->clients.empty() && s->owner == w->clients[0].task && d.dst.port == 53 && d.data.size() >= 2 && !is_raw(d.data)) { cli_sent_ids.push_back((uint16_t)((d.data[0] << 8) | d.data[1])); if (cli_sent_ids.size() > 64) cli_sent_ids.pop_front(); }
 		if (!have_pend || !s || w->clients.empty() || s->owner != w->clients[0].task) return;
 		have_pend = false;
 		bool fits = true;
@@ -108,6 +109,20 @@ struct C02Delivery : Monitor {
 	{
 		if (have_pend && !w->clients.empty() && &t == w->clients[0].task) { have_pend = false; dropped_c++; w->probes["c02.cli.drained"]++; }
 	}
+	// how many queries back is the id under which a data-carrying answer reaches the client?  (the client drops answers to
+	// anything but its last three queries; the server sends one-fragment packets once)
+	std::deque<uint16_t> cli_sent_ids;
+	int nonrecent_data_answers = 0;
+	void on_deliver(const Dgram &d, Sock *s) override
+	{
+		if (!s || !s->owner || w->clients.empty() || s->owner != w->clients[0].task || d.src.port != 53 || is_raw(d.data) || d.data.size() < 12) return;
+		DnsMsg m; Bytes pl;
+		if (!dns_parse_strict(d.data, m).empty() || !answer_payload(m, pl) || pl.size() <= 2 || !(pl[0] & 0x80)) return;
+		int age = -1;
+		for (size_t i = 0; i < cli_sent_ids.size(); i++) if (cli_sent_ids[cli_sent_ids.size() - 1 - i] == m.id) { age = (int)i; break; }
+		if (age < 0 || age >= 16) { nonrecent_data_answers++; w->probes["c02.data_answer_under_old_id"]++; }
+		w->probes["c02.data_answer_age." + std::string(age < 0 ? "gone" : age >= 16 ? "16+" : age >= 8 ? "8-15" : age >= 3 ? "3-7" : "0-2")]++;
+	}
 	void on_tun_write(Task &t, const Bytes &p) override
 	{
 		if (&t == w->srv) del_s.push_back({p, w->S.now});
@@ -131,11 +146,12 @@ struct C02Delivery : Monitor {
 		for (auto &d : del) if (!nofit.count(d.pkt)) {
 			// under re-delivery faults (C16) a re-answered query may make the receiver write a packet again: repeats are
 			// C01-legal and not what C16 is about; loss and reordering still are
-			if (prop != "C02" && !seen_once.insert(d.pkt).second) { w->probes["c16.repeat_writes"]++; continue; }
+			// (downstream only: the server writing an upstream packet twice is exactly what C16 forbids)
+			if (prop != "C02" && dir[0] == 's' && !seen_once.insert(d.pkt).second) { w->probes["c16.repeat_writes"]++; continue; }
 			got.push_back(&d.pkt);
 		}
 		w->probes[std::string("c02a.must.") + dir] = (int64_t)must;
-		if (prop != "C02" && dir[0] == 's' && w->probes["c16.client_discarded_nonrecent"] > 0) {
+		if (prop != "C02" && ((dir[0] == 's' && w->probes["c16.client_discarded_nonrecent"] > 0) || (dir[0] == 'c' && w->probes["c16.client_resend_limit_reached"] > 0))) {
 			// The client legitimately discards answers whose id is not among its last three queries (client.c, "non-recent stuff");
 			// duplicate answers caused by re-delivered queries can push a data-carrying answer out of that window. That loss is the
 			// client's reaction to duplication, not the server processing a query twice: only order is demanded in such runs.
